@@ -3,6 +3,7 @@
       B  remove_scope_clean, delete_scope_clean, no_scope_nothing
       C  last_record_removes_session, delete_record_msg, move_record_msg
       D  indexes_exact                the five lookups hold exactly the keys of stored content
+      D' spec_owner_strdiff_refuted   the pre-fix string-diff writers lose a re-spelled owner
       E  keys_unique                  primary keys are unique
     Everything is first proved about the keeper functions; [step] is a thin case analysis. *)
 From Coq Require Import ZArith List Bool Lia.
@@ -520,6 +521,24 @@ Lemma indexes_exact : forall ops, let st := run ops in
   index_exact (ix_ac st) (cspecs st) cspec_keys_ac.
 Proof. intros ops. exact (proj2 (Inv_run ops)). Qed.
 Print Assumptions indexes_exact.
+
+(** D': the writers as they were before fix 722f4df35 (owner strings diffed as strings): an owner
+    re-spelled across an update is stored but not listed; the current writers list it. *)
+Lemma spec_owner_strdiff_refuted :
+  (let s := Ss 1 [103] [] in
+   let bad := set_sspec_strdiff (set_sspec init (Ss 1 [3] [])) s in
+   let good := set_sspec (set_sspec init (Ss 1 [3] [])) s in
+   In s (sspecs bad) /\ In (3, 1) (sspec_keys_asp s) /\ ~ In (3, 1) (ix_asp bad) /\
+   In (3, 1) (ix_asp good)) /\
+  (let c := Cs 1 [103] in
+   let bad := set_cspec_strdiff (set_cspec init (Cs 1 [3])) c in
+   let good := set_cspec (set_cspec init (Cs 1 [3])) c in
+   In c (cspecs bad) /\ In (3, 1) (cspec_keys_ac c) /\ ~ In (3, 1) (ix_ac bad) /\
+   In (3, 1) (ix_ac good)).
+Proof.
+  split; vm_compute; splits; try (left; reflexivity); intros [].
+Qed.
+Print Assumptions spec_owner_strdiff_refuted.
 
 Lemma keys_unique : forall ops, let st := run ops in
   NoDup (map sc_id (scopes st)) /\ NoDup (map (fun s => (se_scope s, se_uuid s)) (sessions st)) /\
